@@ -86,6 +86,7 @@ Lemma TP_rmdir_parents : forall fuel p, TP (fun op => exists d, op = ORmdir d /\
 Proof.
   induction fuel as [|f IH]; intros p; cbn [rmdir_parents]; [apply TP_ret|].
   destruct (parent p) as [d|] eqn:E; [|apply TP_ret]. destruct d as [|c d']; [apply TP_ret|].
+  destruct (str_eqb (c :: d') [46%N]); [apply TP_ret|].
   pose proof (parent_ancestor _ _ E) as A.
   apply TP_bind; [apply TP_perform; eauto|]. intros r.
   assert (R : TP (fun op => exists d0, op = ORmdir d0 /\ is_ancestor d0 p) (rmdir_parents f (c :: d'))).
